@@ -35,8 +35,16 @@ def _run_rules(ctx, report):
         report.guard("C03.TL", c12.where, ctx, report, facts, config, "C03.TL")
 
 
+ENCAPSULATED_NOTE = (" (ENCAPSULATED) The premise of all of these - the crate's own code is the only thing that touches this state - is an obligation "
+                     "of its own: no field of the types the state lives in can be named outside the crate (effective visibility), and no function a "
+                     "user can call hands out `&mut` to one of them.")
+EXPLANATION = EXPLANATION + ENCAPSULATED_NOTE
+TECHNIQUE = TECHNIQUE + "; encapsulation inventory on rustc's effective visibilities (fields of state types, `&mut` results of callable functions)"
+
+
 def run(ctx, report):
     _run_rules(ctx, report)
     from .. import shared as _S
+    report.guard("C03.CONFIGS", _S.configurations, ctx, report, "C03.CONFIGS")
     for config in ctx.configs:
         report.guard("C03.ENCAPSULATED", _S.encapsulated, ctx, report, "C03.ENCAPSULATED", ctx.facts(config), config, "C03")
